@@ -20,18 +20,21 @@ from common import EXN, coq_bool, coq_list, coq_nat, exn_name, fl, flv, q, qv  #
 ID = "C19"
 N_CASES = {"quick": 360, "thorough": 5000, "search": 3000}
 SHARD = 90
-RULE = ("seeded streams: polylines with 0-6 vertices (dyadic coordinates with <= 20 significant bits over power-of-two "
-        "magnitudes, so x*10^d is exact in binary64 and rounding ties are real ties) x decimals 0..12; planes with "
-        "axis-aligned (exact) and exactly normalised generic normals x position decimals 0..12 x direction decimals "
-        "0..12; single-fault corruptions of valid documents judged by the real jsonschema; the extracted schema; "
-        "non-trivial = no exception at top level; distinct by hash")
+RULE = ("seeded streams: polylines with 0-6 vertices x decimals 0..12 - coordinates with <= 20 significant bits over "
+        "power-of-two magnitudes (x*10^d exact in binary64, rounding ties are real ties, compared with exact decimal "
+        "rounding), full-mantissa coordinates (judged per coordinate: exact rounding away from tie noise, the half-unit "
+        "bound always), magnitudes just below the overflow of x*10^d, is_closed given as numpy.bool_, one int64 vertex "
+        "array per run; planes with axis-aligned (exact) and exactly normalised generic normals, 20-bit or full-mantissa "
+        "reference points x position decimals 0..12 x direction decimals 0..12; single-fault corruptions and harmless "
+        "variations of valid documents (incl. NaN / Infinity number tokens: recorded, not modelled) judged by the real "
+        "jsonschema; the extracted schema; non-trivial = no exception at top level; distinct by hash")
 TRUSTED = ["Coq 8.16.1 kernel, vm_compute for the correspondence evaluation",
            "axioms (Print Assumptions): Coq stdlib Reals axioms only",
            "json (float text round trip), jsonschema 4.26 Draft7Validator, simplejson: trusted, compared with the model's "
            "validator on every corrupted document",
            "schema extractor in tools/props/C19.py (fail closed on unknown keywords)",
            "coq/corr/K_C19.v: numbers compared at 1e-15 purely relative (k/10^d is not a double); a full-mantissa coordinate "
-           "within 1e-3 (+1e-15 relative) of a rounding tie is judged by the half-unit bound only, per coordinate; "
+           "within 1e-3 (+2^-52 relative to x*10^d) of a rounding tie is judged by the half-unit bound only, per coordinate; "
            "coordinates with <= 20 significant bits (incl. real ties) are compared with exact decimal rounding",
            "NumPy np.around = rint(x*10^d)/10^d (pinned by the correspondence on exact inputs incl. ties)"]
 CASE_IMPORTS = [("PW.model", "M_polyline_base"), ("PW.model", "M_plane"), ("PW.model", "M_serialize")]
@@ -42,8 +45,11 @@ ASSUMPTIONS = ["theorems are about exact decimal rounding (round-half-even of x*
                "and the code emits inf (np.around(1e300, 12) = inf) - outside the real-number model",
                "closedness is a Python bool or numpy.bool_ (what comparisons on arrays return); other truthy values are "
                "not generated",
-               "the model is of the code WITH fixes/C19-empty-polyline-deserialize.diff and "
-               "fixes/C19-plane-rounded-direction-decimals.diff applied"]
+               "'three numbers' means JSON numbers; Python's json also reads the non-standard tokens NaN / Infinity, which "
+               "jsonschema accepts as numbers and deserialize stores: the model's numbers are rationals, such documents are "
+               "generated and recorded (kind doc_*_valid_nonfinite) but not modelled; only 'refused => not deserialized' is judged",
+               "the model is of the code as repaired by /repo commits b58b02b (empty polyline deserialize), 981c15b "
+               "(Plane.rounded passes direction_decimals on) and 2b8d651 (serialize emits bool(is_closed))"]
 
 
 def kernels():
@@ -216,6 +222,13 @@ def _corrupt(rng, doc, which):
     if u < 0.86:
         return rng.choice([[d], 3.0, None, "x", []]), "not_an_object"
     # harmless variations: still valid
+    if u < 0.885:
+        bad = float(rng.choice(["nan", "inf", "-inf"]))
+        if which == "polyline":
+            d["vertices"] = d["vertices"] + [[bad, 0.0, 1.0]]
+        else:
+            d["referencePoint"] = [1.0, bad, 0.0]
+        return d, "valid_nonfinite"
     if u < 0.93:
         return {k: d[k] for k in reversed(list(d))}, "valid_reordered"
     if which == "polyline":
@@ -234,6 +247,7 @@ def gen_cases(rng, n, tier):
     cases.append({"kind": "polyline_ties", "v": [[0.125, 0.375, 0.625], [-0.125, 2.5, 1.0 / 1024]], "closed": False, "d": 2, "exact": True})
     cases.append({"kind": "plane_coarse", "ref": [1.0, 2.0, 3.0], "normal": [2.0 / 7, 3.0 / 7, 6.0 / 7], "exact": False, "exact_ref": True, "pd": 6, "dd": 2})
     cases.append({"kind": "polyline_numpy_bool_closed", "v": [[0.5, 1.0, 2.0]], "closed": True, "closed_np": True, "d": 3, "exact": True})
+    cases.append({"kind": "polyline_int64_vertices", "v": [[1.0, -2.0, 3.0], [0.0, 7.0, -5.0]], "closed": True, "d": 4, "exact": True, "int": True})
     cases.append({"kind": "polyline_near_overflow", "v": [[1.5e295, -2.0 ** 970, 0.0]], "closed": False, "d": 12, "exact": True})
     while len(cases) < n:
         u = rng.random()
@@ -294,7 +308,7 @@ def _undecided(vals, d):
     n = 0
     for x in vals:
         y = Fr(float(x)) * 10 ** d
-        if abs((y - (y.numerator // y.denominator)) - Fr(1, 2)) <= Fr(1, 1000) + abs(y) / 10 ** 15:
+        if abs((y - (y.numerator // y.denominator)) - Fr(1, 2)) <= Fr(1, 1000) + abs(y) / 2 ** 52:
             n += 1
     return n
 
@@ -318,7 +332,7 @@ def run_impl(c):
             return {"raise": "ExtractError", "msg": str(e)[:300]}
     if k.startswith("polyline"):
         def go():
-            v = np.array(c["v"], dtype=np.float64).reshape(-1, 3)
+            v = np.array(c["v"], dtype=np.int64 if c.get("int") else np.float64).reshape(-1, 3)
             p = Polyline(v, is_closed=np.bool_(c["closed"]) if c.get("closed_np") else c["closed"])
             o = {"input_v": p.v.tolist()}
             with np.errstate(all="ignore"):
@@ -422,6 +436,8 @@ def coq_case(c, o):
             coq_bool(c.get("exact_ref", True)), coq_bool(c["exact"]), pl, coq_nat(c["pd"]), coq_nat(c["dd"]),
             _res(ser, lambda s: _json_term(s, fl)), coq_bool(o.get("valid", False) is True),
             _res(o.get("deser", {"raise": "OtherError"}), _oplane), _res(o["rounded"], _oplane))
+    if c["fault"] == "valid_nonfinite":
+        return "CSkip"      # NaN / Infinity tokens: no rational model; counted under its own kind in the histogram
     doc = _json_term(c["doc"], q)
     if _is_raise(o["accepted"]):
         return "CFail"
@@ -448,8 +464,8 @@ def _check_vec(name, orig, got, d, exact):
         if abs(fg - fx) > Fr(1, 2 * 10 ** d) + Fr(1, 10 ** 15) * max(abs(fx), abs(fg)):
             return "%s[%d]: %r differs from the original %r by more than half a unit of decimal %d" % (name, i, g, x, d)
         # exact decimal rounding is demanded wherever it is decided: always when x*10^d is exact in binary64, otherwise
-        # away from the noise of a tie (1e-3 of a unit + 1e-15 relative to the scaled value)
-        decided = exact or tie > Fr(1, 1000) + abs(fx) * 10 ** d / 10 ** 15
+        # away from the noise of a tie (1e-3 of a unit + 2^-52 relative to the scaled value = twice the rounding error of x*10^d)
+        decided = exact or tie > Fr(1, 1000) + abs(fx) * 10 ** d / 2 ** 52
         if decided and abs(fg - Fr(want)) > Fr(1, 10 ** 15) * max(abs(Fr(want)), abs(fg)):
             return "%s[%d]: %r is not %r rounded to %d decimals (%r)" % (name, i, g, x, d, want)
     return None
